@@ -564,7 +564,9 @@ func (sh *SyncHandler) runSync(syncType string, enumSrc func(chan<- blob.SizedRe
 	enumch := make(chan blob.SizedRef, 8)
 	errch := make(chan error, 1)
 	intr := make(chan struct{})
-	defer close(intr)
+	var stopOnce sync.Once
+	stopEnum := func() { stopOnce.Do(func() { close(intr) }) }
+	defer stopEnum()
 	go func() { errch <- enumSrc(enumch, intr) }()
 
 	nCopied := 0
@@ -582,6 +584,9 @@ FeedWork:
 			toCopy++
 		default:
 			// Buffer full. Enough for this batch. Will get it later.
+			// The enumerator may be blocked sending more; it is
+			// waited for below, so tell it to stop.
+			stopEnum()
 			break FeedWork
 		}
 	}
